@@ -6,8 +6,10 @@
 HERE="$(cd "$(dirname "$0")/.." && pwd)"
 REPO="${SWEEP_REPO:-/repo}"
 cd "$HERE"
+# SWEEP_MATCH: extended regex on the seed id (e.g. '^S[0-2]'), default all
 for d in seeded/S*/; do
   id=$(basename $d)
+  if [ -n "$SWEEP_MATCH" ] && ! echo "$id" | grep -Eq "$SWEEP_MATCH"; then continue; fi
   prop=$(python3 -c "import json;print(json.load(open('$d/meta.json'))['property'])")
   checks="$prop"
   case $id in S18*|S57*) checks="C09";; esac
